@@ -212,6 +212,12 @@ def execute(plan):
                         viol("inverse", step, "which_distance_dB(calc_path_loss_dB(d)) != d for parameters %s (worst rel err %.3g)" % (
                             st, float(np.max(np.abs(back - d[pos]) / d[pos]))), rel="inverse")
                         return
+                    jj = int(np.flatnonzero(pos)[0])
+                    sc_back = obj.which_distance_dB(float(got[jj]))            # scalar query agrees with the array query
+                    sc_back2 = obj.which_distance(float(lin[jj]))
+                    if abs(float(sc_back) - d[jj]) > 1e-9 * d[jj] or abs(float(sc_back2) - d[jj]) > 1e-8 * d[jj]:
+                        viol("inverse", step, "scalar inverse query gives %r / %r for d=%.9g" % (sc_back, sc_back2, d[jj]), rel="inverse_scalar")
+                        return
                     back2 = np.asarray(obj.which_distance(lin[pos]), dtype=float)
                     if np.max(np.abs(back2 - d[pos]) / d[pos]) > 1e-8:
                         viol("inverse", step, "which_distance(calc_path_loss(d)) != d for parameters %s" % st, rel="inverse_linear")
